@@ -43,6 +43,14 @@ CHECKS = {
             "stateless DFS over thread interleavings under a controlled cooperative scheduler (preemption-bounded, adversarial sync.Pool object choice) + sequential purity bundle on every explored transition + separate free-running race-detector pass",
             "(a) On every transition of a union-alphabet exploration and on invalid variants of every accepted block: inputs (state, block, every proof, supplement) bit-identical before/after ValidateBlock, ApplyBlock, RevertBlock and per-transaction MidState validation; repeated calls and a decode(encode()) copy give identical verdict, state bytes and update digest; per-transaction verdict equals the block verdict; returned updates and Copy()/DeepCopy() share no memory with the inputs. (b) Every interleaving of 2-3 callers (ValidateBlock, ApplyBlock, RevertBlock, multiproof encoding, IDs/sighashes, per-transaction validation) on shared inputs and both hasher pools, at scheduling points before every pool Get and after every pool Put, up to the stated preemption bound, with every choice of pooled object within the data-deviation bound: each result equals its sequential reference, inputs unchanged, exactly one global outcome. (c) The same bodies free-running under -race.",
             "Scheduling points only at synchronisation operations (sequential consistency); unsynchronised accesses are the race detector's job (a detector, not exhaustive). sync.Pool is replaced in verification builds by the vsync shim through a build overlay.", "3/C09"),
+    "C10": ("E4", "fault_enumeration",
+            "bounded exhaustive hostile-input enumeration: every prefix / byte substitution / 8-byte length-window substitution of a capped corpus of valid encodings through every decoder and text entry point in an address-space-limited worker subprocess; exhaustive single structural mutations of every accepted block shape of an explicit-state chain exploration through every Validate* entry point",
+            "(a) For all 185 binary codecs (inventory cross-checked against the source with go/parser at run time) and 46 text/JSON entry points, for every base encoding of the capped corpus: every proper prefix, every byte x 7 substitutions, every 8-byte window x 8 extreme little-endian values (texts: every position x 12 symbols, deletions, duplications, length changes), plus policies nested 31..300000 deep: the decoder returns (worker alive, no panic) and allocates at most 64 MiB + 1024*len(input). (b) At every accepted block shape of a union-alphabet exploration on four network families, every single structural mutation of block and supplement (integers/currencies to 0,1,2^63,2^64-1,2^128-1, proofs resized, out-of-range indices, nil pointers/interfaces, wrong resolution types, deep/wide policies; as is and re-sealed) through ValidateBlock, ValidateOrphan, ValidateHeader, ValidateTransaction, ValidateV2Transaction, ValidateTransactionElements never panics; accepted mutants are applied and reverted without panic.",
+            "Corpus caps (bases per codec, bytes per base) are reported in evidence; inputs are single-point variations of valid encodings, not all byte strings. Fixed in /repo: a412166, 6e1d13c, 1fcdc37, e82d080, be7c22f (validation panics), 3d45940, 9b3e8e2 (unbounded decoder allocations), 6472682 (over-long hex).", "3/C10"),
+    "C11": ("E2", "exploration",
+            "bounded exhaustive enumeration of structured value domains (seven generic profiles, sum-type variants, chain-derived values, every single-leaf deviation; thorough: pairs) for every codec of a source-cross-checked inventory, against round-trip, canonicity, field-completeness, independent wire-layout and prefix oracles",
+            "For all 185 codec entries: decode(encode(v)) equals v up to the documented normalisations; re-encoding is byte-identical and deterministic; every leaf not in the explicit not-transmitted table changes the bytes and every listed leaf does not; the bytes of 58 consensus-critical types equal an independent table-driven layout (incl. sans-signature forms via independently hashed IDs and an independent multiproof computation); every proper prefix of every base encoding (and of short deviations) fails to decode; bools other than 0/1 are rejected.",
+            "Layout table written from the protocol description (mc/checks/c11/wirespec.go). Prefix oracle on deviations is limited to short encodings (scope in evidence); thorough pairs are capped at 150 deviation points per base (reported as non-exhaustive).", "3/C11"),
     "C12": ("E2", "exploration",
             "bounded exhaustive single/pairwise field-mutation enumeration (reflection walk with a complete field classification) over transaction/block templates; all-pairs distinctness of derived IDs; era replay through the real ValidateBlock",
             "Every single (thorough: pairwise) field mutation of rich v1/v2 transaction templates changes the ID and all derived IDs iff the field is classified effect-bearing (unclassified fields fail the run); all derived-ID kinds x indices x parents are pairwise distinct; sighashes bind purpose (independent preimage model) and era (hash level and end-to-end replay across every era pair); every content mutation of real v1/v2 blocks is rejected or changes the ID, v2 commitments bind every encoded state field and the miner address.",
@@ -116,7 +124,7 @@ def main():
             {"name": "E1", "path": "/verif/mc/chain", "kind_free_text": "explicit-state explorer over the real ValidateBlock/ApplyBlock/RevertBlock transition function with independent reference ledger and forest", "serves_properties": [p for p in CHECKS if CHECKS[p][0] == "E1"]},
             {"name": "E2", "path": "/verif/mc/vf", "kind_free_text": "bounded exhaustive input enumerator (odometer over structured finite domains) with reference models", "serves_properties": [p for p in CHECKS if CHECKS[p][0] == "E2"]},
             {"name": "E3", "path": "/verif/mc/sched", "kind_free_text": "controlled cooperative scheduler with preemption-bounded stateless DFS over sync.Pool scheduling points", "serves_properties": [p for p in CHECKS if CHECKS[p][0] == "E3"]},
-            {"name": "E4", "path": "/verif/mc/fault", "kind_free_text": "exhaustive single-fault injector for frames/streams and hostile-length decoders", "serves_properties": [p for p in CHECKS if CHECKS[p][0] == "E4"]},
+            {"name": "E4", "path": "/verif/mc/checks/c19", "kind_free_text": "exhaustive single-fault injector for frames/streams over an in-memory man-in-the-middle (mc/checks/c19) and hostile-input enumerator for decoders with an address-space-limited worker subprocess (mc/checks/c10)", "serves_properties": [p for p in CHECKS if CHECKS[p][0] == "E4"]},
         ],
         "checks": checks,
         "not_applicable": na,
